@@ -29,3 +29,18 @@ for p in props:
     for x in g:
         print("      %s:%d  %s" % (x["file"], x["line"], x["text"]))
 json.dump(report, open(os.path.join(kv.BUILD, "cov_baseline.json"), "w"), indent=1)
+if "--write" in sys.argv:
+    # per-function tolerance for the coverage gate (see covgate.load_tolerance)
+    path = os.path.join(kv.VERIF, "lib", "pinned_cov.json")
+    tol = json.load(open(path)) if os.path.exists(path) else {}
+    for p, r in report.items():
+        d = {}
+        for x in r["unexecuted_in_entered_functions"]:
+            src = open(os.path.join(kv.REPO, x["file"]), errors="replace").read().split("\n")
+            if covgate.PUNCT_RE.match(src[x["line"] - 1]):
+                continue
+            k = "%s::%s" % (x["file"], covgate.fn_name_at(src, x["line"]))
+            d[k] = d.get(k, 0) + 1
+        tol[p] = d
+    json.dump(tol, open(path, "w"), indent=1, sort_keys=True)
+    print("wrote", path)
